@@ -50,7 +50,12 @@ def gen_spec(rng, res, root, p_bad_value=0.15, p_missing=0.12,
     if not keys and p_badkey == 0.0:
         return None, info
     if not keys or r < p_badkey:
-        comps.append("nosuchkey")
+        # a key nobody declared, or one the key type itself refuses
+        # (no white space or parentheses: the edited text could not spell
+        # such a key)
+        comps.append(rng.choice(["nosuchkey", "nosuchkey", "9lives",
+                                 "\u00e9t\u00e9", "k_:x"])
+                     if p_badkey else "nosuchkey")
         val = "v"
         info["badkey"] = True
     else:
